@@ -83,7 +83,9 @@ class mysql41(uh.StaticHandler):
 
     @classmethod
     def _norm_hash(cls, hash):
-        return hash.upper()
+        # NOTE: str.upper() turns some non-ascii characters (e.g. u"\ufb00") into ascii letters;
+        #       leave such input alone, it is rejected by the checksum validation.
+        return hash.upper() if hash.isascii() else hash
 
     def _calc_checksum(self, secret):
         # FIXME: no idea if mysql has a policy about handling unicode passwords
